@@ -16,6 +16,7 @@ package io
 import (
 	"fmt"
 	"reflect"
+	"strconv"
 	"strings"
 	"sync"
 
@@ -166,7 +167,13 @@ func (dec *Decoder) ReadStruct(t reflect.Type) {
 	dec.ref = append(dec.ref, makeStructInfo(name, names, t))
 }
 
-func (dec *Decoder) getStructInfo(index int) structInfo {
+func (dec *Decoder) getStructInfo(index int) (info structInfo) {
+	if index < 0 || index >= len(dec.ref) {
+		if dec.Error == nil {
+			dec.Error = DecodeError("hprose/io: class index " + strconv.Itoa(index) + " out of range")
+		}
+		return
+	}
 	return dec.ref[index]
 }
 
